@@ -2013,7 +2013,7 @@ package goatlang
 //@   allocates elems(instruction)
 //@
 //@ func (*compiler).compile case "if"
-//@   property C06 C02 C07
+//@   property C06 C02 C07 C08
 //@   axioms TOKARR
 //@   requires wfC(c) && tok != nil && len(tok.Tokens) >= 3 && tokArr(arr(tok.Tokens)) && (forall j int :: 0 <= j && j < len(tok.Tokens) ==> tok.Tokens[j] != nil)
 //@   ensures#wf wfC(c) && keepsC(c)
@@ -2056,7 +2056,7 @@ package goatlang
 //@   pure
 
 //@ func (*compiler).compile case "for"
-//@   property C06 C02 C07
+//@   property C06 C02 C07 C08
 //@   axioms TOKARR
 //@   requires wfC(c) && tok != nil && len(tok.Tokens) >= 4 && tokArr(arr(tok.Tokens)) && (forall j int :: 0 <= j && j < len(tok.Tokens) ==> tok.Tokens[j] != nil)
 //@   ensures#wf wfC(c) && keepsC(c)
@@ -2067,7 +2067,7 @@ package goatlang
 //@   invariant tokensKept() && (c.Optimize ==> optimized(cond) && optimized(block) && optimized(post))
 //@
 //@ func (*compiler).compile case "range"
-//@   property C06 C02 C07
+//@   property C06 C02 C07 C08
 //@   axioms TOKARR
 //@   requires wfC(c) && tok != nil && len(tok.Tokens) >= 4 && tokArr(arr(tok.Tokens)) && (forall j int :: 0 <= j && j < len(tok.Tokens) ==> tok.Tokens[j] != nil)
 //@   ensures#wf wfC(c) && keepsC(c)
@@ -2078,7 +2078,7 @@ package goatlang
 //@   invariant tokensKept() && (c.Optimize ==> optimized(block))
 
 //@ func (*compiler).compile case "switch"
-//@   property C06 C02 C07
+//@   property C06 C02 C07 C08
 //@   axioms TOKARR
 //@   requires wfC(c) && tok != nil && len(tok.Tokens) >= 3 && tokArr(arr(tok.Tokens)) && (forall j int :: 0 <= j && j < len(tok.Tokens) ==> tok.Tokens[j] != nil)
 //@   requires tokArr(arr(tok.Tokens[1].Tokens)) && (forall j int :: 0 <= j && j < len(tok.Tokens[1].Tokens) ==> tok.Tokens[1].Tokens[j] != nil && len(tok.Tokens[1].Tokens[j].Tokens) >= 2 && tokArr(arr(tok.Tokens[1].Tokens[j].Tokens)) && tok.Tokens[1].Tokens[j].Tokens[0] != nil && tok.Tokens[1].Tokens[j].Tokens[1] != nil)
@@ -2097,3 +2097,9 @@ package goatlang
 //@ func (*compiler).compile case "switch" loop 2
 //@   invariant wfC(c) && c.Locals == old(c.Locals) && c.Globals == old(c.Globals) && len(c.scope) == old(len(c.scope)) + 2 && len(c.Locals.data) >= old(len(c.Locals.data)) && len(c.Returns) == old(len(c.Returns)) && c.Optimize == old(c.Optimize) && tokensKept() && (c.Optimize ==> optimized(defBlock) && optimized(csStmt) && optimized(csBlock))
 //@   invariant forall j int :: 0 <= j && j < old(len(c.scope)) ==> c.scope[j] == old(c.scope[j])
+
+//@ func (*compiler).compile case "return"
+//@   property C09 C07 C06
+//@   axioms TOKARR
+//@   requires wfC(c) && tok != nil && len(c.Returns) >= 1 && tokArr(arr(tok.Tokens)) && (forall j int :: 0 <= j && j < len(tok.Tokens) ==> tok.Tokens[j] != nil)
+//@   ensures#wf wfC(c) && keepsC(c)
